@@ -66,11 +66,23 @@ func c17Key(seed uint64, i int, schnorrKey bool) *relayertypes.PublicKey {
 	return world.BtcPubKey(world.Derive(seed, "c17key", i), schnorrKey)
 }
 
+// flipEach calls f with every single-bit mutation of every byte of b, and with every byte replaced by the opcodes and
+// push lengths that are meaningful in output scripts (other witness versions, other program lengths, OP_RETURN).
 func flipEach(b []byte, f func(mut []byte, pos int)) {
 	for i := range b {
-		m := append([]byte(nil), b...)
-		m[i] ^= 1 << uint(i%8)
-		f(m, i)
+		for bit := uint(0); bit < 8; bit++ {
+			m := append([]byte(nil), b...)
+			m[i] ^= 1 << bit
+			f(m, i)
+		}
+		for _, v := range []byte{0x00, 0x51, 0x52, 0x60, 0x14, 0x20, 0x21, 0x6a, 0xff} {
+			if b[i] == v {
+				continue
+			}
+			m := append([]byte(nil), b...)
+			m[i] = v
+			f(m, i)
+		}
 	}
 }
 
@@ -424,7 +436,7 @@ func init() {
 	const pureBatches = 8
 	vc.Register(&vc.Check{
 		ID: "C17", Title: "Deposit addresses handed out are exactly what deposit checking accepts", Level: "exploration",
-		Rule: "cases 0-7: round trips over random keys (both types), EVM addresses, magic prefixes and the 4 networks: address (and data output) from the builders, script rebuilt by hand from the bech32 program, verifier must accept it and refuse another key, the same secret under the other key type, another EVM address (one bit), another magic, every single-bit mutation of every script byte, truncations and the other version's outputs; v1 must be refused for schnorr keys. " +
+		Rule: "cases 0-7: round trips over random keys (both types), EVM addresses, magic prefixes and the 4 networks: address (and data output) from the builders, script rebuilt by hand from the bech32 program, verifier must accept it and refuse another key, the same secret under the other key type, another EVM address (one bit), another magic, every single-bit mutation and every opcode substitution (other witness versions, push lengths, OP_RETURN) of every script byte, truncations and the other version's outputs; v1 must be refused for schnorr keys. " +
 			"cases 8-15: address strings with ground truth (P2PKH/P2SH/P2WPKH/P2WSH/P2TR on all 4 networks, bech32/bech32m mix-ups, checksum mutations, mixed case, short programs, pay-to-pubkey hex, junk) against DecodeBtcAddress: exact hand-built script or refusal; foreign = other bech32 prefix or other base58 version byte. " +
 			"cases 16-23: the same through the application on each network and key type: Query/DepositAddress answers verified, withdrawal requests end pending or cancelled with exactly one refund. Non-trivial = every judged address; distinct = (kind, network, verdict).",
 		Assume: []string{"btcutil's bech32/base58 codecs and btcec are correct (used to generate and to take apart address strings)", "all-uppercase bech32 and future witness versions are not judged"},
